@@ -87,8 +87,9 @@ PROPS = {
         "For a dynamic attribute the emitted code is proved to call the escape routine once with the "
         "attribute's own quote character and static text as default, to drop the attribute for None, "
         "and the escape routine itself (K2) maps `default` to the static text as written.",
-        [K("k3::S-Attribute")] + K2Q,
-        ["tal.prepare_attributes merge (K1, pending)", "boolean and dict attributes (pending)"]),
+        [K("k3::S-Attribute")] + K2Q + [U('bounded.units', 'attrs', 'B-ATTR')],
+        ["tal.prepare_attributes: only the bounded stand-in B-ATTR (not counted as proved)",
+         "boolean and dict attributes (pending)"]),
     "C09": k3prop(
         "The calling convention of use-macro (same stream, copy of the scope, same render-wide "
         "context, current i18n parameters, macroname bound, globals merged back) and the slot "
@@ -134,7 +135,7 @@ PROPS = {
                   U('pyvc.regexstruct', 'tiling', 'parser.tiling'),
                   K("compiler.py::Compiler.visit_End"),
                   K("tokenize.py::Token.__getitem__"), K("tokenize.py::Token.__add__"),
-                  U('bounded.units', 'verbatim', 'B-VERBATIM')],
+                  U('bounded.units', 'verbatim', 'B-VERBATIM'), U('bounded.units', 'attrs', 'B-ATTR')],
         "not_decided": ["match_tag field contracts, visit_Start / visit_Attribute(static) emitters (bounded only)",
                         "CR/CRLF normalisation in PageTemplate.parse (pending)",
                         "ElementParser child order"],
